@@ -257,7 +257,7 @@ fn multisets(kinds: usize, size: usize, f: &mut dyn FnMut(&[usize])) {
 
 pub fn run(tier: Tier) -> Report {
     let rep = Report::new("C17", tier);
-    rep.set_rule("every multiset of <= K stream items over Q queries x T tracks x distances {.25,.5,1,2,None} (quick: 2x2, K=4; thorough: 3x3 K=4 and 2x2 K=6), plus streams in which queries and tracks share ONE id space {1,2,3} (every ordered pair q != t x distances {.25,.5,1}, K=4 quick / 5 thorough), every permutation of streams of <= 4 items (rotations, reversal and adjacent transpositions of the canonical order for 5-6 items), N in {1,2,3}, min_votes in {1,2}, max_distance in {.5,.75,1,1.5,2,10} (three of them equal to a distance of the menu: 'not exceeding' is decided at equality); TopN and BestFit judged against the counting rules, results of tie-free streams required identical across orders; VisualVoting and Hungarian voting judged structurally (Hungarian: weights {absent, 0 (gated out, the query still appears), .2, .5, .9}). Non-trivial = at least two items.");
+    rep.set_rule("every multiset of <= K stream items over Q queries x T tracks x distances {.25,.5,1,2,None} (quick: 2x2, K=4; thorough: 3x3 K=4 and 2x2 K=6), plus streams in which queries and tracks share ONE id space {1,2,3} (every ordered pair q != t x distances {.25,.5,1}, K=4 quick / 5 thorough), every permutation of streams of <= 4 items (rotations, reversal and adjacent transpositions of the canonical order for 5-6 items), N in {1,2,3}, min_votes in {1,2}, max_distance in {.5,.75,1,1.5,2,10} (three of them equal to a distance of the menu: 'not exceeding' is decided at equality); TopN and BestFit judged against the counting rules (also on streams with 1..40 tracks per query, N up to 10), results of tie-free streams required identical across orders; VisualVoting and Hungarian voting judged structurally (Hungarian: weights {absent, 0 (gated out, the query still appears), .2, .5, .9}). Non-trivial = at least two items.");
     let dmenu: Vec<Option<f32>> = vec![Some(0.25), Some(0.5), Some(1.0), Some(2.0), None];
     let params: Vec<(usize, usize, f32)> = {
         let mut p = vec![];
@@ -359,6 +359,36 @@ pub fn run(tier: Tier) -> Report {
                 }
             });
         }
+    }
+
+    // many tracks per query: one or two queries x k tracks (k = 1..=40, more than any small-slice shortcut of a
+    // sorting routine), distinct weights, N in {1,2,3,10}, several stream orders: at most N, heaviest first,
+    // nothing heavier omitted (the generic TopN / BestFit judges)
+    {
+        let mut lists = 0u64;
+        for k in 1..=40usize {
+            // distances d_t = 0.05 + 0.02 t (all <= max_distance 1.0 for t < 40, distinct), second query shifted
+            let base: Vec<Item> = (0..k).flat_map(|t| [(QB, TB + t as u64, Some(0.05 + 0.02 * ((t * 7) % k) as f32 + 0.001 * t as f32)), (QB + 1, TB + t as u64, Some(0.9 - 0.02 * ((t * 3) % k) as f32 - 0.001 * t as f32))]).collect();
+            let n = base.len();
+            let orders: Vec<Vec<usize>> = vec![(0..n).collect(), (0..n).rev().collect(), (0..n).map(|i| (i * 7 + 3) % n).filter(|_| n % 7 != 0).collect::<Vec<_>>(), (0..n).map(|i| (i + n / 2) % n).collect()];
+            for ord in orders.iter().filter(|o| o.len() == n) {
+                let o: Vec<Item> = ord.iter().map(|i| base[*i]).collect();
+                for topn in [1usize, 2, 3, 10] {
+                    lists += 1;
+                    evals.fetch_add(2, Ordering::Relaxed);
+                    let case = || json!({"engine":"topn/best","family":"many tracks per query","tracks":k,"topn":topn,"order":ord});
+                    if let Err((key, w)) = check_topn(&o, topn, 1.0, 1) {
+                        rep.violation(Violation { key: key.into(), what: format!("{k} tracks per query: {w}"), replay: case() });
+                    }
+                    if topn == 1 {
+                        if let Err((key, w)) = check_best(&o, 1.0, 1) {
+                            rep.violation(Violation { key: key.into(), what: format!("{k} tracks per query: {w}"), replay: case() });
+                        }
+                    }
+                }
+            }
+        }
+        rep.extra("many_tracks_per_query_streams", json!(lists));
     }
 
     // VisualVoting: streams over 2 queries x 2 tracks with (positional weight, feature distance) pairs
